@@ -246,7 +246,8 @@ func (c *FnCtx) havocAll(p *Path) {
 		}
 		p.heap.m[k] = c.fresh("Hh "+k, arraySort(k, c.heapSort[k]))
 	}
-	p.heap.lazy = append(p.heap.lazy, lazyH{prefix: "*"})
+	c.nfresh++
+	p.heap.lazy = append(p.heap.lazy, lazyH{id: c.nfresh, prefix: "*"})
 }
 
 func (c *FnCtx) inline(p *Path, fn *ssa.Function, args []Val, binds []Val) []outcome {
